@@ -8,7 +8,7 @@ from vlib import ns
 
 ns.install()
 
-ENTRIES = ['future', 'shutdown', 'exit-exc', 'exit-kbd', 'kbd-result', 'kbd-shutdown', 'kbd-exit']
+ENTRIES = ['future', 'shutdown', 'exit-exc', 'exit-sys', 'exit-kbd', 'kbd-result', 'kbd-shutdown', 'kbd-exit']
 MSG = 'stop it'
 
 
@@ -81,6 +81,10 @@ def cancel_action(c, entry):
     elif entry == 'exit-exc':
         e = Boom(MSG)
         m.__exit__(type(e), e, None)
+    elif entry == 'exit-sys':
+        # a non-interrupt exception that is not an Exception subclass (sys.exit() inside the with-block)
+        e = SystemExit(MSG)
+        m.__exit__(type(e), e, None)
     elif entry == 'exit-kbd':
         e = KeyboardInterrupt()
         m.__exit__(type(e), e, None)
@@ -116,7 +120,7 @@ def expected_error(entry):
         return H.CancelledError, ''
     if entry == 'shutdown':
         return H.CancelledError, MSG
-    if entry == 'exit-exc':
+    if entry in ('exit-exc', 'exit-sys'):
         return H.FatalError, MSG
     if entry in ('exit-kbd', 'kbd-shutdown', 'kbd-exit'):
         return H.CancelledError, 'KeyboardInterrupt()'
@@ -143,7 +147,7 @@ def go(c, S, entry=None, top_at=-1, prefer=None):
                     cancel_action(c, entry)
                 except Exception as e:  # noqa
                     c.cancel_error = e
-                if entry in ('shutdown', 'exit-exc', 'exit-kbd', 'kbd-shutdown', 'kbd-exit') and c.cancel_error is None:
+                if entry in ('shutdown', 'exit-exc', 'exit-sys', 'exit-kbd', 'kbd-shutdown', 'kbd-exit') and c.cancel_error is None:
                     # shutdown / with-exit is a barrier, however it ends
                     c.barrier_ok = S.quiescent() and c.future.done() and all(e.closed for e in S.execs)
             r = S.runnable()
